@@ -53,6 +53,119 @@ def setup(facts):
     return bm, ip
 
 
+def enum_values(f, bits, limit=64):
+    """the concrete values of the bit-vector `bits` that satisfy f (f depends on these bits only); None when there are more than `limit`"""
+    Mx = bv.M
+    out = []
+    while f != 0:
+        if len(out) >= limit:
+            return None
+        a = Mx.sat_one(f)
+        v = sum((1 << i) for i, b in enumerate(bits) if b > 1 and a.get(Mx.var[b], 0))
+        out.append(v)
+        f = Mx.AND(f, Mx.NOT(bv.eq(bits, bv.const(v, len(bits)))))
+    return sorted(out)
+
+
+def dispatch(facts, res):
+    """(0) routing: Bus::write is analysed for a symbolic address and value with the two port handlers as summaries.  Decided for all 2^32
+    addresses: the DDR (DR) handler is invoked exactly for the 11 DDR (DR) addresses of ports 1..B - an address of the window that is not
+    routed leaves the port logic out (stale DR, no announcement), an address outside the window that is routed runs the handler outside its
+    domain - with the written address and value, whenever the written value differs from the stored one.
+    Returns {kind: set of routed addresses} (the calling contexts the handler analysis below has to cover)."""
+    bv.reset()
+    bm = BusModel(facts)
+    ms, pats = models.standard_models()
+    ip = Interp(facts, primitives={}, models=ms)
+    ip.pattern_models = pats
+    module_models(ip)
+    ip.log_arr = True
+    Mx = bv.M
+    addr = bv.top_bv("addr", 32, 20)
+    val = bv.data_bv("val", 8)
+    mem = {}
+    busref = bm.fresh(mem)
+
+    def p_port(kind):
+        def f(ip_, st, fr, t, args):
+            st.add_eff(("port", kind, args[1].bits if isinstance(args[1], Int) else None, args[2].bits if isinstance(args[2], Int) else None))
+            return [(None, Enum(models.OK, [UNIT])), (None, Enum(models.ERR, [Opaque("port-err")]))]
+        return f
+
+    def p_modw(ip_, st, fr, t, args):
+        return UNIT
+    for nm, kind in (("on_write_ddr", "ddr"), ("on_write_dr", "dr")):
+        ip.primitives[facts.find(nm)[0]] = p_port(kind)
+    c = facts.find("write_registers")
+    if len(c) == 1:
+        ip.primitives[c[0]] = p_modw
+    outs = ip.run_all(facts.body("bus::Bus::write")["key"], [busref, Int(addr), Int(val)], mem)
+    if ip.unknown_callees:
+        res.errors.append("routing: unmodelled callees in Bus::write: %r" % ip.unknown_callees)
+    addr_ranks = set(Mx.var[b] for b in addr)
+    routed = {}
+    for kind, base, store, start in (("ddr", DDR_BASE, "io_registrs1", IO1_START), ("dr", DR_BASE, "io_registrs2", IO2_START)):
+        window = Mx.AND(bv.ule(bv.const(base, 32), addr), bv.ule(addr, bv.const(base + NPORT - 1, 32)))
+        called = 0
+        missed = 0
+        badargs = 0
+        imprecise = False
+        for o in outs:
+            st = o.state
+            if any(t in st.tags for t in ("opaque-switch", "opaque-assert", "unknown-callee", "unwrap-opaque")):
+                imprecise = True
+                continue
+            pe = [e for e in st.eff if e[0] == "port" and e[1] == kind]
+            if pe:
+                called = Mx.OR(called, st.pc)
+                for e in pe:
+                    if e[2] is None or e[3] is None:
+                        badargs = Mx.OR(badargs, st.pc)
+                        continue
+                    for x, y in list(zip(e[2], addr)) + list(zip(e[3], val)):
+                        if x != y:
+                            badargs = Mx.OR(badargs, Mx.AND(st.pc, Mx.XOR(x, y)))
+                if len(pe) > 1:
+                    badargs = Mx.OR(badargs, st.pc)
+                continue
+            if o.kind != "return" or not isinstance(o.value, Enum) or o.value.variant != models.OK:
+                continue      # rejected addresses / panics: C09, C15
+            c = Mx.AND(st.pc, window)
+            if c == 0:
+                continue
+            # not routed although the address is in the window: fine only if the written value equals the stored one
+            exp_idx = bv.sub(addr, bv.const(start, 32))
+            same = 0
+            for e in st.eff:
+                if e[0] == "arrread" and e[1] == store:
+                    nb = len(e[2])
+                    if all(x == y or Mx.AND(c, Mx.XOR(x, y)) == 0 for x, y in zip(e[2], exp_idx[:nb])):
+                        same = Mx.OR(same, bv.eq(tuple(e[3]), val))
+            missed = Mx.OR(missed, Mx.AND(c, Mx.NOT(same)))
+        if imprecise:
+            res.errors.append("routing of %s writes: Bus::write is not followed precisely - not decided" % kind.upper())
+            routed[kind] = None
+            continue
+        sup = lambda f: set(Mx.support(f)) - addr_ranks
+        called_a = Mx.exists(called, sup(called))
+        outside = Mx.AND(called_a, Mx.NOT(window))
+        inside_never = Mx.AND(window, Mx.NOT(called_a))
+        res.ob(outside == 0)
+        if outside != 0:
+            res.finding("routing|%s|outside-window" % kind, "Bus::write runs the %s handler for an address that is not a %s of ports 1..B (the handler derives a port number outside 1..=0xB from it)"
+                        % (kind.upper(), kind.upper()), witness(outside))
+        res.ob(inside_never == 0 and missed == 0)
+        if inside_never != 0 or missed != 0:
+            res.finding("routing|%s|missed" % kind, "a CPU write that changes a port's %s does not reach the port logic (DR merge and ioport announcement are skipped)" % kind.upper(),
+                        witness(inside_never if inside_never != 0 else missed))
+        res.ob(badargs == 0)
+        if badargs != 0:
+            res.finding("routing|%s|arguments" % kind, "the %s handler is not invoked exactly once with the written address and value" % kind.upper(), witness(badargs))
+        routed[kind] = enum_values(called_a, addr)
+        res.evaluations += len(outs)
+    return routed
+
+
 def final_elem(ip, arr, idx):
     return ip.arr_read(arr, idx)
 
@@ -88,6 +201,8 @@ def run(ctx, res):
         if len(v) != 1:
             res.errors.append("anchor %s: %r" % (k, v))
             return
+    routed = dispatch(facts, res)
+    res.inventory["routed_addresses"] = {k: (["0x%x" % a for a in v] if v is not None else "more than 64 / undecided") for k, v in routed.items()}
     for op in ("ddr", "dr", "pin"):
         bm, ip = setup(facts)
         _IP[0] = ip
@@ -106,6 +221,13 @@ def run(ctx, res):
             args = [busref, Int(addr), Int(val)]
             valid = Mx.AND(bv.ule(bv.const(base, 32), addr), bv.ule(addr, bv.const(base + NPORT - 1, 32)))
             p0 = bv.sub(addr, bv.const(base, 32))[:8]
+            # the calling contexts Bus::write really produces (rule 0): panics are judged on them, the per-bit reference on the 11 ports
+            ctx_ = valid
+            if routed.get(op) is None:
+                ctx_ = 1
+            else:
+                for a_ in routed[op]:
+                    ctx_ = Mx.OR(ctx_, bv.eq(addr, bv.const(a_, 32)))
         outs = ip.run_all(names[op][0], args, mem)
         if ip.unknown_callees:
             res.errors.append("unmodelled callees in %s: %r" % (names[op][0], ip.unknown_callees))
@@ -128,9 +250,11 @@ def run(ctx, res):
                 res.errors.append("imprecise trace in %s: %r" % (op, st.tags))
                 continue     # an imprecisely followed trace decides nothing
             if o.kind == "panic":
-                if care != 0:
+                carep = Mx.AND(st.pc, ctx_) if op != "pin" else st.pc      # write_port is handed any port number the control channel names
+                if carep != 0:
                     res.ob(False)
-                    res.finding("%s|panic|%s" % (op, o.info.get("kind")), "the port handler can panic (%s, line %s)" % (o.info.get("kind"), o.info.get("line")), witness(care))
+                    res.finding("%s|panic|%s" % (op, o.info.get("kind")), "the port handler can panic (%s, line %s)%s" % (o.info.get("kind"), o.info.get("line"),
+                                "" if care != 0 else " outside the port window (an address Bus::write routes to it / a port number the control channel can name)"), witness(carep))
                 continue
             w1 = bm.store_of(st, "io_registrs1").writes
             w2 = bm.store_of(st, "io_registrs2").writes
